@@ -348,6 +348,14 @@ let spec_check (know : int list) (s : sx) =
       let h = history_of oop_sx in
       let st = orswot_sx s in
       cmp "C04" show_orswot orswot_eqb (ospec h k) st;
+      (* C09: an element whose known adds are all covered by applied removes stays absent *)
+      let spec_entries = List.map (fun (m, _) -> int_of_n m) (nmap_to_list (ospec h k).oentries) in
+      List.iter (fun (m, _) ->
+        let added = List.exists (fun o -> match o with OAdd (_, ms) -> List.mem m ms | _ -> false) (known_ops h k) in
+        count "C09";
+        if added && not (List.mem (int_of_n m) spec_entries) then
+          report "C09" (Printf.sprintf "member %s is present although every add of it the replica has applied is covered by a remove it has applied" (show_n m)))
+        (nmap_to_list st.oentries);
       (* the literal sentence of C04 on the read *)
       List.iter (fun m ->
         let m = n_of_int m in
@@ -377,7 +385,8 @@ let spec_check (know : int list) (s : sx) =
   | _ -> ()
 
 let canon_props () =
-  (if !merges_seen then ["C03"]
+  (* C08 also speaks about pending removes travelling inside merged states *)
+  (if !merges_seen then ["C03"] @ (if !all_per_actor && not !all_causal then ["C08"] else [])
    else (if !all_causal then ["C01"] else []) @ (if !all_per_actor && (!disc <> 0 || not !all_causal) then ["C08"] else []))
   @ (if is_map !ty then ["C05"] else [])
 
